@@ -5,7 +5,11 @@ Event line (JSON): {"p": "C10", "op": "...", "in": [...], "ctx": [...], "out": "
 Decimals are written "<int>e<exp>" (value = int * 10^exp).
 """
 import json
+import sys
 from fractions import Fraction
+
+if hasattr(sys, "set_int_max_str_digits"):
+    sys.set_int_max_str_digits(0)
 
 
 def dec(tok):
@@ -39,7 +43,10 @@ def recheck_file(prop, path):
             if not line:
                 continue
             ev = json.loads(line)
-            verdict = f(ev)
+            try:
+                verdict = f(ev)
+            except Exception as e:  # a crash of the checker is a harness defect, never a violation
+                verdict = ("disagree", "offline checker raised %s: %s" % (type(e).__name__, str(e)[:200]))
             checked += 1
             if verdict is None:
                 continue
@@ -86,3 +93,22 @@ def check_exp(ev):
     if xn == 0 and r != 1:
         return ("violation", "exp(0) = %s" % ev["out"])
     return None
+
+
+# ---------------------------------------------------------------- second opinion on the in-process model
+import secondop
+
+
+def _second_opinion(ev):
+    if "held" not in ev:
+        return None
+    again = secondop.check_event(ev)
+    if again is None:
+        return None
+    if bool(again) != bool(ev["held"]):
+        return ("disagree", "in-process verdict held=%s, python re-computation held=%s" % (ev["held"], again))
+    return None
+
+
+for _p in ("C01", "C06", "C07", "C08", "C09", "C10", "C11", "C12", "C14", "C15"):
+    CHECKERS[_p] = _second_opinion
